@@ -14,16 +14,19 @@ import DateutilVerif.Ops.QueryOps
 import DateutilVerif.Ops.RRule
 import DateutilVerif.Ops.RRuleGen
 import DateutilVerif.Ops.RRuleStr
+import DateutilVerif.Ops.RRuleStrGen
 import DateutilVerif.Ops.RSetOps
+import DateutilVerif.Ops.ReduceOps
 import DateutilVerif.Ops.RelativeDelta
 import DateutilVerif.Ops.ReplaceOps
 import DateutilVerif.Ops.TzGen
 import DateutilVerif.Ops.TzObjGen
 import DateutilVerif.Ops.TzStr
+import DateutilVerif.Ops.TzifGen
 import DateutilVerif.Ops.Zones
 
 def handlers : List (String → List String → Option String) :=
-  [Ops.Base.handle, Ops.CacheOps.handle, Ops.Factory.handle, Ops.ICal.handle, Ops.IsoParser.handle, Ops.NestedOps.handle, Ops.Parser.handle, Ops.QueryOps.handle, Ops.RRule.handle, Ops.RRuleGen.handle, Ops.RRuleStr.handle, Ops.RSetOps.handle, Ops.RelativeDelta.handle, Ops.ReplaceOps.handle, Ops.TzGen.handle, Ops.TzObjGen.handle, Ops.TzStr.handle, Ops.Zones.handle]
+  [Ops.Base.handle, Ops.CacheOps.handle, Ops.Factory.handle, Ops.ICal.handle, Ops.IsoParser.handle, Ops.NestedOps.handle, Ops.Parser.handle, Ops.QueryOps.handle, Ops.RRule.handle, Ops.RRuleGen.handle, Ops.RRuleStr.handle, Ops.RRuleStrGen.handle, Ops.RSetOps.handle, Ops.ReduceOps.handle, Ops.RelativeDelta.handle, Ops.ReplaceOps.handle, Ops.TzGen.handle, Ops.TzObjGen.handle, Ops.TzStr.handle, Ops.TzifGen.handle, Ops.Zones.handle]
 
 def dispatch (line : String) : String :=
   match (line.trimAscii.toString.splitOn " ").filter (· ≠ "") with
